@@ -757,6 +757,16 @@ pub fn arb_case(max_corruptions: usize) -> impl Strategy<Value = Case> {
         let nh_v6 = nh_v6 && family.afi() != Family::AFI_IP;
         // (derived, so that the strategy's shape and earlier replays are unchanged)
         let rs_client = ebgp && (fam as usize + withdrawn.len() + nlri.len()) % 3 == 0;
+        // one case in five carries the receiver's own AS (65000) in its AS_PATH: an AS loop on top of whatever else is wrong
+        if (fam as usize + 2 * withdrawn.len() + nlri.len()) % 5 == 0
+            && let Some(segs) = attrs.as_path.as_mut()
+            && let Some(first) = segs.iter_mut().find(|s| s.t == SEG_SEQ && s.n > 0 && s.n < 200)
+        {
+            let mut v = first.asn_list();
+            v.push(65000);
+            first.n = v.len() as u16;
+            first.asns = v;
+        }
         Case { ebgp, rs_client, two_byte_as, fam, unreach_fam, withdrawn, nlri, mp_reach, mp_unreach, nh_v6, attrs, as4_path, corruptions }
     })
 }
